@@ -13,6 +13,7 @@ import Driver.OpsFuncs
 import Driver.OpsMem
 import Driver.OpsConc
 import Driver.OpsCopy
+import Driver.OpsGen
 import GoderiveModel.U.Typing
 import GoderiveModel.S.Equal
 import GoderiveModel.Spec.StructEq
@@ -74,6 +75,9 @@ def runOp (s : DState) (name : String) (args : List SExp) : String :=
   | some r => r
   | none =>
   match OpsCopy.run s name args with
+  | some r => r
+  | none =>
+  match OpsGen.run s name args with
   | some r => r
   | none => runOpCore s name args
 
